@@ -58,14 +58,14 @@ Record keyops := mkKeyops {
   pdist : Z -> kP -> Z;          (* getProbabilityBasedDist(weight, p, absoluteAttemptCost) *)
   pone : kP;                     (* 1 *)
   pzero : kP -> bool;            (* p == 0 *)
-  pvalid : kP -> Prop            (* the domain: a number >= 0 (not NaN) *)
+  pvalid : kP -> Prop            (* the domain: a probability, i.e. a number in [0,1] (not NaN) *)
 }.
 
-(* The laws the stability proof needs (for IEEE-754 round-to-nearest float64:
-   rounding is monotone, so every one of them holds for non-NaN, non-negative
-   operands; see notes/C19.md). *)
+(* The laws the stability proof needs.  They only speak about operands in the
+   domain [pvalid] (for float64: 0 <= p <= 1, which excludes NaN and infinity),
+   where IEEE-754 round-to-nearest operations are monotone; see notes/C19.md. *)
 Record keyops_ok (K : keyops) : Prop := mkKeyopsOk {
-  ple_total : forall a b, ple K a b = true \/ ple K b a = true;
+  ple_refl : forall a, pvalid K a -> ple K a a = true;
   ple_trans : forall a b c, ple K a b = true -> ple K b c = true -> ple K a c = true;
   pone_valid : pvalid K (pone K);
   pmul_valid : forall p e, pvalid K p -> pvalid K e -> pvalid K (pmul K p e);
